@@ -19,6 +19,8 @@ for sid in sorted(os.listdir(os.path.join(ROOT, "seeded"))):
     verdicts = ", ".join("%s %s%s" % (c, v["verdict"], (" (" + ", ".join(v["buckets"][:2]) + ")") if v.get("buckets") else "") for c, v in det.items())
     if m.get("detection_note"):
         verdicts += " — " + m["detection_note"]
+    if m.get("retired"):
+        verdicts = "retired: " + m["retired"]
     rows.append("| %s | %s | %s | %s |" % (sid, short(m.get("summary"), 200), short(m.get("needs"), 160), verdicts))
 table = "\n".join(["| seed | change (author's summary) | needs, to manifest | verdicts (quick tier unless noted) |", "|---|---|---|---|"] + rows) + "\n"
 p = os.path.join(ROOT, "DESIGN.md")
